@@ -67,3 +67,227 @@ Print Assumptions C01_compile_correct_partial.
 Print Assumptions C01_zero_shares_sum_zero.
 Print Assumptions C01_private_product_sum.
 Print Assumptions C01_compile_correct_Z.
+
+(* ====================================================================================== *)
+(* C01 deep: the graph-to-graph model of the compiler's per-graph step (Model/MpcCompile.v: *)
+(* propagate_private_annotations, the resharing planner, compile_to_mpc_graph with apply_op, *)
+(* the gadget nodes, reshare / get_zero_shares / recursively_sum_shares), tied LITERALLY to    *)
+(* the code on every run (T:compile-literal, planner, T:compile-rejected).                     *)
+(*                                                                                              *)
+(* Semantics (Model/MpcCompileSem.v): the ring reading with PRF nodes and constants as atoms;   *)
+(* the Custom nodes AddMPC / SubtractMPC / <bilinear>MPC are read by a specification           *)
+(* [gadget_sem], and C01_deep_gadget_bodies proves that the gadget BODIES ([gadget_body], the    *)
+(* mirror of instantiate, tied literally by T:gadget-literal) compute exactly this.  What is    *)
+(* not modelled: the instantiation pass and the inliner that splice the bodies into the graph  *)
+(* (C08 / C07), covered end to end by the T:ring obligations on compile_context's output.      *)
+(* Share-wise lifted unary operations and Dot/Matmul/Gemm are abstract additive / bi-additive  *)
+(* maps of the ring.                                                                            *)
+(* ====================================================================================== *)
+From CC Require Import Base.Scalar Base.Ty Base.Shape Graph.Value Graph.IR Graph.Eval Graph.Typing
+  Model.RingEval Model.MpcCompile Model.MpcCompilePlan Model.MpcCompileSem
+  Proofs.MpcCompileBase Proofs.MpcCompileStatic Proofs.MpcCompileProofs Proofs.MpcCompileGadgets.
+
+(* Structure, for EVERY program of the mirrored fragment (all of mpc_mirrored), every privacy
+   vector: dependencies of the compiled graph point backwards, the node map is total on the
+   source nodes, lands inside the compiled graph and is strictly increasing, and every private
+   source node is mapped to a node annotated Private. *)
+Theorem C01_deep_structure : forall nodes output flags out oo omap,
+  compile_graph_map nodes output flags = Ok (out, oo, omap) ->
+  exists priv use_mul,
+    propagate_private_annotations nodes flags = Ok (priv, use_mul) /\
+    (forall k nd, znth out k = Ok nd -> Forall (fun d => 0 <= d < k) (n_deps nd)) /\
+    zlen omap = zlen nodes /\
+    (forall j k, znth omap j = Ok k -> 0 <= k < zlen out) /\
+    (forall j j' a b, znth omap j = Ok a -> znth omap j' = Ok b -> j < j' -> a < b) /\
+    (forall j k, znth omap j = Ok k -> mem j priv = true ->
+                 exists cn, znth out k = Ok cn /\ In APrivate (n_annots cn)) /\
+    znth omap output = Ok oo.
+Proof. exact compile_graph_structure. Qed.
+
+(* Correctness on the additive/bilinear fragment ([thm_frag]: Input, Constant, Zeros, Ones, Add,
+   Subtract, the bilinear operations Multiply, Dot, Matmul, Gemm (abstract bi-additive maps [bil]
+   except Multiply, the ring product), the share-wise lifted unary operations Sum, CumSum,
+   PermuteAxes, Get, GetSlice, Reshape (abstract additive maps [lin]) and the n-ary ones Stack,
+   Concatenate (abstract maps [nlin], additive on operand lists; here apply_op promotes public
+   operands to (x, 0, 0) with emitted Zeros nodes), over arrays/scalars): for every such program, every is_input_private vector, EVERY resharing plan the
+   compiler accepts (the proof never looks at the planner), every commutative ring, all inputs, all
+   presentations of the private inputs as three shares, all PRF values ([atom]) and all keys:
+   if the source graph evaluates, the compiled graph evaluates, and for every source node j the
+   compiled node omap[j] holds the same value when j is public, and three shares adding up to it
+   when j is private ([rel]). *)
+Theorem C01_deep_compile_correct_partial :
+  forall (R : Type) (r0 r1 : R) (radd rmul rsub : R -> R -> R) (ropp : R -> R),
+  ring_theory r0 r1 radd rmul rsub ropp eq ->
+  forall (atom : Z -> R) (catom : value -> R) (one : R) (lin : op -> R -> R) (bil : op -> R -> R -> R) (nlin : op -> list R -> R),
+  (forall o a b, lin o (radd a b) = radd (lin o a) (lin o b)) ->
+  (forall o a a' b, bil o (radd a a') b = radd (bil o a b) (bil o a' b)) ->
+  (forall o a b b', bil o a (radd b b') = radd (bil o a b) (bil o a b')) ->
+  (forall o l l', length l = length l' -> nlin o (vadd R radd l l') = radd (nlin o l) (nlin o l')) ->
+  forall nodes output flags out oo omap priv use_mul,
+  compile_graph_map nodes output flags = Ok (out, oo, omap) ->
+  propagate_private_annotations nodes flags = Ok (priv, use_mul) ->
+  thm_frag nodes = true ->
+  forall ins_s ins_c env_s kv0 kv1 kv2,
+  deval R r0 radd rmul rsub atom catom one lin bil nlin nodes ins_s = Some env_s ->
+  inrel R radd flags ins_s ins_c ->
+  exists env_c,
+    deval R r0 radd rmul rsub atom catom one lin bil nlin out (keys_input R use_mul kv0 kv1 kv2 ++ ins_c) = Some env_c /\
+    forall j vs, znth env_s j = Ok vs ->
+      exists k vc, znth omap j = Ok k /\ znth env_c k = Ok vc /\ rel R radd (mem j priv) vs vc.
+Proof. exact compile_graph_correct. Qed.
+
+(* the same for EVERY resharing plan [resh] (any list of node ids the compiler does not reject): the
+   compiled function does not depend on the planner; [compile_graph_map] is [compile_graph_plan] at
+   the plan computed by get_nodes_to_reshare *)
+Theorem C01_deep_compile_correct_any_plan_partial :
+  forall (R : Type) (r0 r1 : R) (radd rmul rsub : R -> R -> R) (ropp : R -> R),
+  ring_theory r0 r1 radd rmul rsub ropp eq ->
+  forall (atom : Z -> R) (catom : value -> R) (one : R) (lin : op -> R -> R) (bil : op -> R -> R -> R) (nlin : op -> list R -> R),
+  (forall o a b, lin o (radd a b) = radd (lin o a) (lin o b)) ->
+  (forall o a a' b, bil o (radd a a') b = radd (bil o a b) (bil o a' b)) ->
+  (forall o a b b', bil o a (radd b b') = radd (bil o a b) (bil o a b')) ->
+  (forall o l l', length l = length l' -> nlin o (vadd R radd l l') = radd (nlin o l) (nlin o l')) ->
+  forall resh nodes output flags out oo omap priv use_mul,
+  compile_graph_plan resh nodes output flags = Ok (out, oo, omap) ->
+  propagate_private_annotations nodes flags = Ok (priv, use_mul) ->
+  thm_frag nodes = true ->
+  forall ins_s ins_c env_s kv0 kv1 kv2,
+  deval R r0 radd rmul rsub atom catom one lin bil nlin nodes ins_s = Some env_s ->
+  inrel R radd flags ins_s ins_c ->
+  exists env_c,
+    deval R r0 radd rmul rsub atom catom one lin bil nlin out (keys_input R use_mul kv0 kv1 kv2 ++ ins_c) = Some env_c /\
+    forall j vs, znth env_s j = Ok vs ->
+      exists k vc, znth omap j = Ok k /\ znth env_c k = Ok vc /\ rel R radd (mem j priv) vs vc.
+Proof. exact compile_graph_plan_correct. Qed.
+
+(* the statement about the output node: equal if public, three shares adding up to it if private *)
+Theorem C01_deep_output_correct_partial :
+  forall (R : Type) (r0 r1 : R) (radd rmul rsub : R -> R -> R) (ropp : R -> R),
+  ring_theory r0 r1 radd rmul rsub ropp eq ->
+  forall (atom : Z -> R) (catom : value -> R) (one : R) (lin : op -> R -> R) (bil : op -> R -> R -> R) (nlin : op -> list R -> R),
+  (forall o a b, lin o (radd a b) = radd (lin o a) (lin o b)) ->
+  (forall o a a' b, bil o (radd a a') b = radd (bil o a b) (bil o a' b)) ->
+  (forall o a b b', bil o a (radd b b') = radd (bil o a b) (bil o a b')) ->
+  (forall o l l', length l = length l' -> nlin o (vadd R radd l l') = radd (nlin o l) (nlin o l')) ->
+  forall nodes output flags out oo priv use_mul,
+  compile_graph nodes output flags = Ok (out, oo) ->
+  propagate_private_annotations nodes flags = Ok (priv, use_mul) ->
+  thm_frag nodes = true ->
+  forall ins_s ins_c env_s v kv0 kv1 kv2,
+  deval R r0 radd rmul rsub atom catom one lin bil nlin nodes ins_s = Some env_s ->
+  znth env_s output = Ok (RLeaf R v) ->
+  inrel R radd flags ins_s ins_c ->
+  exists env_c vc,
+    deval R r0 radd rmul rsub atom catom one lin bil nlin out (keys_input R use_mul kv0 kv1 kv2 ++ ins_c) = Some env_c /\
+    znth env_c oo = Ok vc /\
+    (if mem output priv then reveal3 R radd vc = Some v else vc = RLeaf R v).
+Proof.
+  intros R r0 r1 radd rmul rsub ropp Rth atom catom one lin bil nlin Hlin Hbl Hbr Hnl nodes output flags out oo priv um H Hp Hf
+         ins_s ins_c env_s v kv0 kv1 kv2 Hs Hv Hin.
+  unfold compile_graph in H. destruct (compile_graph_map nodes output flags) as [[[o1 oo1] omap]| | |] eqn:Hm; try discriminate.
+  cbn in H. inversion H; subst o1 oo1.
+  destruct (compile_graph_structure _ _ _ _ _ _ Hm) as (p' & u' & Hp' & _ & _ & _ & _ & _ & Hoo).
+  destruct (compile_graph_correct R r0 r1 radd rmul rsub ropp Rth atom catom one lin bil nlin Hlin Hbl Hbr Hnl _ _ _ _ _ _ _ _ Hm Hp Hf
+              _ _ _ kv0 kv1 kv2 Hs Hin) as (env_c & Hev & Hall).
+  destruct (Hall _ _ Hv) as (k & vc & Hk & Hvc & Hrel). rewrite Hoo in Hk. inversion Hk; subst k.
+  exists env_c, vc. split; [exact Hev|]. split; [exact Hvc|].
+  destruct (mem output priv).
+  - destruct Hrel as (x & a & b & c & Hx & -> & Hsum). inversion Hx; subst. reflexivity.
+  - exact Hrel.
+Qed.
+
+(* The gadget specifications are what the gadget bodies compute: for AddMPC, SubtractMPC,
+   MultiplyMPC, DotMPC, MatmulMPC, GemmMPC and every pair of argument types, the graph built by
+   [gadget_body] (mirror of CustomOperationBody::instantiate, tied literally by T:gadget-literal),
+   evaluated by the same ring reading on argument values of the right shape, returns
+   [gadget_sem] of these values.  So the Custom-node reading used by
+   C01_deep_compile_correct_partial is not an assumption about the gadgets. *)
+Theorem C01_deep_gadget_bodies :
+  forall (R : Type) (r0 : R) (radd rmul rsub : R -> R -> R) (atom : Z -> R) (catom : value -> R) (one : R)
+         (lin : op -> R -> R) (bil : op -> R -> R -> R) (nlin : op -> list R -> R) g t0 t1 body oid va vb,
+  elem_gadget g = true ->
+  gadget_body g [t0; t1] = Ok (body, oid) ->
+  shape_ok R t0 va -> shape_ok R t1 vb ->
+  exists env v,
+    deval R r0 radd rmul rsub atom catom one lin bil nlin body [va; vb] = Some env /\
+    znth env oid = Ok v /\
+    gadget_sem R r0 radd rmul rsub bil g [va; vb] = Some v.
+Proof. exact gadget_body_sem. Qed.
+
+(* the full statement (not proved): every operation the compiler accepts, values of every type
+   (tuples, vectors, named tuples), the gadget specifications replaced by the evaluation of
+   their instantiated graphs, and Graph/Eval.v instead of the ring reading *)
+Definition C01_deep_full : Prop :=
+  forall nodes output flags out oo,
+    compile_graph nodes output flags = Ok (out, oo) ->
+    forall (eval_source eval_compiled : list value -> option value) (reconstruct : value -> value) inputs,
+      eval_compiled inputs = option_map reconstruct (eval_source inputs).
+
+(* ---- non-vacuity: (x * y + z).sum() with x, y private and z public ---- *)
+Definition ex_t : ty := TArray [2] U32.
+Definition ex_src : list node :=
+  [ mkNode (OInput ex_t) [] [] [] ex_t; mkNode (OInput ex_t) [] [] [] ex_t; mkNode (OInput ex_t) [] [] [] ex_t;
+    mkNode OMultiply [0; 1] [] [] ex_t; mkNode OAdd [3; 2] [] [] ex_t; mkNode (OSum [0]) [4] [] [] (TScalar U32) ].
+Definition ex_flags : list bool := [true; true; false].
+
+(* the model compiles it: 1 key input + 3 inputs + MultiplyMPC + AddMPC + 3x(TupleGet, Sum) + CreateTuple
+   + the 19 nodes of reshare = 32 nodes; the product is not reshared, the output is *)
+Example C01_deep_example_compiles :
+  thm_frag ex_src = true /\ mpc_mirrored ex_src = true /\
+  private_and_reshared ex_src 5 ex_flags = Ok ([0; 1; 3; 4; 5], [5]) /\
+  match compile_graph ex_src 5 ex_flags with
+  | Ok (out, oo) => zlen out = 32 /\ oo = 31 /\
+                    map n_op (firstn 6 out) = [OInput keys_type; OInput (TTuple [ex_t; ex_t; ex_t]); OInput (TTuple [ex_t; ex_t; ex_t]);
+                                               OInput ex_t; OCustom "MultiplyMPC"; OCustom "AddMPC"]
+  | _ => False
+  end.
+Proof. vm_compute. repeat split; reflexivity. Qed.
+
+(* and both graphs evaluate over the ring of integers: x = 1+2+3, y = 10+20+30, z = 5, with
+   arbitrary PRF values 7*i; the three output shares add up to x*y+z = 365 *)
+Definition ex_atom (i : Z) : Z := 7 * i.
+Definition ex_lin (o : op) (x : Z) : Z := x.
+Example C01_deep_example_evaluates :
+  match compile_graph ex_src 5 ex_flags with
+  | Ok (out, oo) =>
+      match deval Z 0 Z.add Z.mul Z.sub ex_atom (fun _ => 0) 1 ex_lin (fun _ _ _ => 0) (fun _ _ => 0) out
+                  [RTup Z [RKey Z; RKey Z; RKey Z]; T3 Z 1 2 3; T3 Z 10 20 30; RLeaf Z 5] with
+      | Some env => match znth env oo with Ok vc => reveal3 Z Z.add vc | _ => None end
+      | None => None
+      end
+  | _ => None
+  end = Some 365
+  /\ deval Z 0 Z.add Z.mul Z.sub ex_atom (fun _ => 0) 1 ex_lin (fun _ _ _ => 0) (fun _ _ => 0) ex_src
+           [RLeaf Z 6; RLeaf Z 60; RLeaf Z 5]
+     = Some [RLeaf Z 6; RLeaf Z 60; RLeaf Z 5; RLeaf Z 360; RLeaf Z 365; RLeaf Z 365].
+Proof. vm_compute. split; reflexivity. Qed.
+
+(* the hypotheses of the correctness theorem are satisfiable by this instance *)
+Example C01_deep_example_applies :
+  exists env_c vc out oo,
+    compile_graph ex_src 5 ex_flags = Ok (out, oo) /\
+    deval Z 0 Z.add Z.mul Z.sub ex_atom (fun _ => 0) 1 ex_lin (fun _ _ _ => 0) (fun _ _ => 0) out
+          (keys_input Z true (RKey Z) (RKey Z) (RKey Z) ++ [T3 Z 1 2 3; T3 Z 10 20 30; RLeaf Z 5]) = Some env_c /\
+    znth env_c oo = Ok vc /\ reveal3 Z Z.add vc = Some 365.
+Proof.
+  destruct (compile_graph ex_src 5 ex_flags) as [[out oo]| | |] eqn:Hc; try (vm_compute in Hc; discriminate).
+  destruct (C01_deep_output_correct_partial Z 0 1 Z.add Z.mul Z.sub Z.opp InitialRing.Zth ex_atom (fun _ => 0) 1 ex_lin (fun _ _ _ => 0) (fun _ _ => 0)
+              (fun _ _ _ => eq_refl) (fun _ _ _ _ => eq_refl) (fun _ _ _ _ => eq_refl) (fun _ _ _ _ => eq_refl) ex_src 5 ex_flags out oo [5; 4; 3; 1; 0] true Hc)
+    with (ins_s := [RLeaf Z 6; RLeaf Z 60; RLeaf Z 5]) (ins_c := [T3 Z 1 2 3; T3 Z 10 20 30; RLeaf Z 5])
+         (env_s := [RLeaf Z 6; RLeaf Z 60; RLeaf Z 5; RLeaf Z 360; RLeaf Z 365; RLeaf Z 365]) (v := 365)
+         (kv0 := RKey Z) (kv1 := RKey Z) (kv2 := RKey Z)
+    as (env_c & vc & Hev & Hvc & Hrv).
+  - vm_compute. reflexivity.
+  - reflexivity.
+  - vm_compute. reflexivity.
+  - reflexivity.
+  - change (RLeaf Z 6) with (RLeaf Z (1 + 2 + 3)). change (RLeaf Z 60) with (RLeaf Z (10 + 20 + 30)).
+    apply inrel_priv; [reflexivity|]. apply inrel_priv; [reflexivity|]. apply inrel_pub. apply inrel_nil.
+  - exists env_c, vc, out, oo. change (mem 5 [5; 4; 3; 1; 0]) with true in Hrv. auto.
+Qed.
+
+Print Assumptions C01_deep_structure.
+Print Assumptions C01_deep_compile_correct_partial.
+Print Assumptions C01_deep_output_correct_partial.
+Print Assumptions C01_deep_compile_correct_any_plan_partial.
+Print Assumptions C01_deep_gadget_bodies.
